@@ -243,14 +243,28 @@ class PCtx:
         if op == 'sqrt':
             return self._fatom('sqrt', ('P', self.fpoly(t.args[0])))
         if op == 'fabs':
-            return self._fatom('fabs', ('P', self.fpoly(t.args[0])))
+            return self._fatom('fabs', ('P', _signnorm(self.fpoly(t.args[0]))))
         if op == 'fn':
             return self._fatom('fn:' + t.args[0], *[('P', self.fpoly(a)) if isinstance(a, T) else a for a in t.args[1:]])
         if op == 'select':
             a, b = self.fpoly(t.args[1]), self.fpoly(t.args[2])
             if a == b:
                 return a
-            return self._fatom('select', self.ckey(t.args[0]), ('P', a), ('P', b))
+            r = self.decide(t.args[0])
+            if r is not None:
+                return a if r else b
+            c = t.args[0]
+            if c.op == 'fcmp' and a == -b:
+                # |x| written as a selection:  (0 <= x ? x : -x), (x < 0 ? -x : x) ...   (real-number reading)
+                p1, p2 = self.fpoly(c.args[1]), self.fpoly(c.args[2])
+                z = Poly()
+                pr = c.args[0]
+                if pr in ('ole', 'olt', 'ule', 'ult'):
+                    if p1 == z and p2 == a or p2 == z and p1 == b:
+                        return self._fatom('fabs', ('P', _signnorm(a)))
+                    if p1 == z and p2 == b or p2 == z and p1 == a:
+                        return -self._fatom('fabs', ('P', _signnorm(a)))
+            return self._fatom('select', self.ckey(c), ('P', a), ('P', b))
         if op in ('minnum', 'maxnum'):
             ks = sorted([('P', self.fpoly(t.args[0])), ('P', self.fpoly(t.args[1]))], key=lambda k: k[1].key())
             return self._fatom(op, *ks)
@@ -261,6 +275,10 @@ class PCtx:
             return self._fatom(op, ('T', x))
         # anything else (bit tricks on floats, calls ...) is an opaque atom keyed by the term
         return self._fatom('t', ('T', t))
+
+    def decide(self, c):
+        """hook: truth value of condition c if the context fixes it (DecisionCtx), else None"""
+        return None
 
     def inv(self, b):
         if b.is_const() and b.cval() != 0:
@@ -342,6 +360,13 @@ class PCtx:
         if t.op == 'in':
             return Poly.atom(('in', t.args[0], t.args[1], t.w), mod)
         return Poly.atom(('z', ('T', t)), mod)
+
+
+def _signnorm(p):
+    """|p| == |-p|: normalise the sign of the leading coefficient"""
+    if p.t and p.t[min(p.t)] < 0:
+        return -p
+    return p
 
 
 def _frac_of_bits(t):
@@ -461,3 +486,87 @@ def reduce_ideal(p, a, repl, deg=2):
                 out = out + Poly({m: c}, p.mod)
         p = out
     return p
+
+
+# ---------------------------------------------------------------------------------------------
+# decision tables: compare two terms that contain selections by evaluating them under every valuation of the
+# distinct comparison atoms (sound for PROVED: agreement on all valuations, feasible or not, is agreement)
+
+_CANON = {'olt': ('olt', True), 'ole': ('ole', True), 'oeq': ('oeq', True), 'one': ('one', True), 'ord': ('ord', True),
+          'ule': None, 'ult': None, 'une': ('oeq', False), 'ueq': ('one', False), 'uno': ('ord', False)}
+
+
+class NeedAtom(Exception):
+    def __init__(self, key):
+        self.key = key
+
+
+class DecisionCtx(PCtx):
+    def __init__(self, assign):
+        super().__init__()
+        self.assign = assign
+
+    def lit(self, c):
+        """(atom key, polarity) of an fcmp literal"""
+        pred = c.args[0]
+        a, b = self.fpoly(c.args[1]), self.fpoly(c.args[2])
+        if pred == 'ule':      # !(b < a)
+            return ('olt', b.key(), a.key()), False
+        if pred == 'ult':      # !(b <= a)
+            return ('ole', b.key(), a.key()), False
+        p, pol = _CANON[pred]
+        if p in ('oeq', 'one', 'ord') and b.key() < a.key():
+            a, b = b, a
+        return (p, a.key(), b.key()), pol
+
+    def decide(self, c):
+        if c.op == 'const':
+            return bool(c.args[0])
+        if c.op == 'fcmp':
+            k, pol = self.lit(c)
+            if k not in self.assign:
+                raise NeedAtom(k)
+            return self.assign[k] == pol
+        if c.op == 'not':
+            return not self.decide(c.args[0])
+        if c.op in ('and', 'or', 'xor') and c.w == 1:
+            x, y = self.decide(c.args[0]), self.decide(c.args[1])
+            return (x and y) if c.op == 'and' else (x or y) if c.op == 'or' else (x != y)
+        if c.op == 'select' and c.w == 1:
+            return self.decide(c.args[1]) if self.decide(c.args[0]) else self.decide(c.args[2])
+        k = ('T', c.id)
+        if k not in self.assign:
+            raise NeedAtom(k)
+        return self.assign[k]
+
+
+def decision_equal(t1, t2, max_atoms=8, post=None):
+    """True if fpoly(t1) == fpoly(t2) under every valuation of their comparison atoms; False if some valuation
+    separates them; None if too many atoms / no normal form"""
+    import itertools
+    atoms = []
+    while True:
+        need = None
+        sep = None
+        for vals in itertools.product((False, True), repeat=len(atoms)):
+            ctx = DecisionCtx(dict(zip(atoms, vals)))
+            try:
+                a, b = ctx.fpoly(t1), ctx.fpoly(t2)
+                if post:
+                    a, b = post(a), post(b)
+            except NeedAtom as e:
+                need = e.key
+                break
+            except (NonFinite, TooBig):
+                return None
+            if a != b:
+                sep = (dict(zip(atoms, vals)), a, b)
+                break
+        if need is not None:
+            if len(atoms) >= max_atoms:
+                return None
+            atoms.append(need)
+            continue
+        if sep:
+            return (False,) + sep
+        return True
